@@ -632,6 +632,25 @@ def main():
     feats, extra_pkgs = load_features()
     crate_jobs, controls = enumerate_crate_jobs(feats, tier)
     ds_jobs = enumerate_downstream_jobs(tier)
+    if tier == "quick":
+        # The quick tier is the check one runs on every change: a fixed, much smaller slice of the
+        # enumeration (the thorough tier runs all of it and more).
+        def quick_keep(job):
+            if job["kind"] == "downstream":
+                return job["name"] in ("zbus-default__zvariant-none", "zbus-default__zvariant-gvariant",
+                                       "zbus-tokio-bus-impl-blocking__zvariant-none")
+            c, note, fs = job["crate"], job.get("note", ""), job["features"]
+            if c == "zbus":
+                return note in ("runtime alone", "all features", "runtime + core")
+            if c == "zvariant":
+                return (note in ("no features", "all features")
+                        or fs in (["gvariant"], ["option-as-array"], ["gvariant", "option-as-array"]))
+            if c in ("zvariant_utils", "zvariant_derive", "zbus_macros"):
+                return note == "all features"
+            return note == "no features"
+        crate_jobs = [j for j in crate_jobs if quick_keep(j)]
+        ds_jobs = [j for j in ds_jobs if quick_keep(j)]
+        controls = controls[:1]
     only = os.environ.get("VERIF_FEAT_ONLY")
     if only:
         # development / demonstration aid: restrict the run to the configurations whose description
@@ -819,9 +838,10 @@ def main():
         excluded.append("%s/%s left out of pairs/powersets (still checked alone and in all-features): %s" % (c, f, why))
     caps = []
     if tier == "quick":
-        caps.append("quick tier: pairs only within the core sets %s; larger subsets only as 'all features'; zbus "
-                    "features that merely forward to zvariant are combined with async-io only"
-                    % json.dumps(CORE, sort_keys=True))
+        caps.append("quick tier: a fixed slice of the enumeration only — per crate no-features/all-features, zvariant's "
+                    "gvariant/option-as-array singles and pair, zbus per runtime alone and with the core set %s, and three "
+                    "downstream mixes; the thorough tier runs singles, pairs, subsets and all downstream mixes"
+                    % json.dumps(CORE["zbus"]))
     else:
         caps.append("thorough tier: zvariant subsets of size <= 3 and their complements (not the full 2^%d powerset); "
                     "zbus: runtime x pairs, all-but-one (not the full powerset)" % len(feats["zvariant"]))
